@@ -74,6 +74,7 @@ St(a, p) == [angle |-> a, pulse |-> p]
 Cur == St(angle, pulse)
 Calls(c) == {Call("write", c.mina + o) : o \in Angles} \cup {Call("write", c.maxa + o) : o \in Angles}
             \cup {Call("write", (c.mina + c.maxa) \div 2)}
+            \cup {Call("write", c.minp), Call("write", (c.minp + c.maxp) \div 2)}   \* "angles" that are numerically pulse widths: still angles
             \cup {Call("write_us", c.minp + o) : o \in Pulses} \cup {Call("write_us", c.maxp + o) : o \in Pulses}
             \cup {Call("write_us", (c.minp + c.maxp) \div 2)}
 RoundDiv(n, d) == (2 * n + d) \div (2 * d)          \* nearest integer, d > 0
